@@ -70,6 +70,19 @@ def max_dups(n, m):
 
 
 @lru_cache(maxsize=None)
+def max_word_repeats(w):
+    """Smallest c such that P[w - #distinct >= c] < 2^-FA for w fair 64-bit words (forest bound, M = 2^64)."""
+    pairs = w * (w - 1) // 2
+    num, den = 1, 1
+    for c in range(1, w + 1):
+        num = num * (pairs - c + 1) // c
+        den <<= 64
+        if num << FA_LOG2 < den:
+            return c
+    return None
+
+
+@lru_cache(maxsize=None)
 def stuck_threshold(n, d):
     """Shrinking statistic only (never a verdict): smallest s such that
     P[at least s positions constant over d draws] < 2^-FA:
@@ -254,6 +267,32 @@ def check_run(run, shrink_mode=False):
     for n, tv in sorted(byn.items()):
         if len(set(t for t, _ in tv)) > 1 or len(set(d["typ"] for d in good if d["n"] == n)) > 1:
             distinctness(tv, n, "whole run (all threads and types)", "*", f"*{n}:run")
+    # 4b. 64-bit words repeated between returned tables (any sizes >= 6, any threads, any types): a draw that is
+    # a copy of part of another draw is not call-independent even when the two tables have different sizes.
+    # Same forest bound with M = 2^64; for the word counts of a run this means 5 to 8 repeats at least.
+    words = {}
+    nw = 0
+    rep_examples = []
+    reps = 0
+    for d in sorted(good, key=lambda d: d["s0"]):
+        if d["n"] < 6:
+            continue
+        for i, b in enumerate(d["blocks"]):
+            nw += 1
+            if b in words:
+                reps += 1
+                if len(rep_examples) < 4:
+                    rep_examples.append((words[b], (d["t"], d["typ"], d["n"], d.get("rep", 0), i)))
+            else:
+                words[b] = (d["t"], d["typ"], d["n"], d.get("rep", 0), i)
+    if nw >= 2:
+        cw = max_word_repeats(nw)
+        if cw is not None and reps >= cw:
+            def fmt(x):
+                return f"thread {x[0]} {tname(x[1])} n={x[2]} draw #{x[3]} word {x[4]}"
+            ex = "; ".join(f"{fmt(a)} == {fmt(b)}" for a, b in rep_examples[:2])
+            out.append(_viol("repeated_words", f"{reps} of the {nw} 64-bit words of the returned tables repeat an earlier word (a fair generator gives < {cw} except with probability < 2^-{FA_LOG2}); e.g. {ex}",
+                             "*:words", sorted(set([a[0] for a, b in rep_examples] + [b[0] for a, b in rep_examples])), None, "*"))
     # 5. call-independent: two threads' (or the two types') sequences for one n are not identical
     seqs = {}
     for (t, typ, n), tabs in groups.items():
